@@ -899,6 +899,107 @@ fn run_mismatch(ctx: &Ctx, id: u64, st: &mut Stats) {
     }
 }
 
+/// "audible AY state ... independent of what the machine was doing before": an SZX whose AY chunk
+/// describes a one-shot envelope (tone on, volume register in envelope mode, shape `\___`) must
+/// sound right after the load whatever the receiving chip played before – in particular when it has
+/// already played the very same registers to the end (the envelope generator must be restarted by
+/// the loaded R13 even though the byte is unchanged).
+fn run_ay_retrigger(ctx: &Ctx, id: u64, st: &mut Stats) {
+    let mut rng = Rng::fork(ctx.seed ^ 0xC14A, id);
+    let is128 = id % 2 == 0;
+    let mut a = Abs::random(&mut rng, is128);
+    a.latch &= !0x20;
+    a.r.pc = 0x9000;
+    a.r.sp = 0xBF00;
+    a.r.iff1 = false;
+    a.r.iff2 = false;
+    a.poke_bytes(0x9000, &[0x18, 0xFE]);
+    // decay of about 0.35 s: 256*EP/f_clk
+    let ep: u16 = 2000 + rng.below(1200) as u16;
+    let shape = *rng.pick(&[0u8, 1, 2, 3, 9, 4, 15]);
+    let mut regs = [0u8; 16];
+    regs[0] = 60 + rng.below(120) as u8;
+    regs[7] = 0x3E;
+    regs[8] = 0x10;
+    regs[11] = ep as u8;
+    regs[12] = (ep >> 8) as u8;
+    regs[13] = shape;
+    a.ay = Some(AyState { flags: if is128 { 0 } else { 2 }, cur: rng.below(14) as u8, regs });
+    let file = write_szx(&a, &SzxOpts::plain(), &mut rng);
+    let mk = || {
+        let mut c = Cfg::of(is128);
+        c.ay = true;
+        c.rate = 44100;
+        Machine::new(c)
+    };
+    // tone energy shortly after a load: mean |x[i+1]-x[i]| over frames 2 and 3 after the load (the
+    // frame in which the file's frame clock is applied is skipped; a decay of ~0.35 s is still loud
+    // then). Sample-to-sample differences ignore the DC filter's slow baseline movement.
+    let measure = |m: &mut Machine| -> f32 {
+        m.drain_audio();
+        m.run_frames(1);
+        m.drain_audio();
+        let mut v: Vec<f32> = vec![];
+        for _ in 0..2 {
+            m.run_frames(1);
+            v.extend(m.drain_audio().iter().map(|s| s.0 + s.1));
+        }
+        if v.len() < 2 {
+            return 0.0;
+        }
+        v.windows(2).map(|w| (w[1] - w[0]).abs()).sum::<f32>() / (v.len() - 1) as f32
+    };
+    st.cases += 1;
+    st.kind("ay-envelope-retrigger");
+    // reference: fresh machine
+    let mut fresh = mk();
+    if !matches!(load_szx(&mut fresh, &file), Ok(Ok(()))) {
+        return; // reported by the ordinary cases
+    }
+    let ref_swing = measure(&mut fresh);
+    // attack shapes (4, 15) start silent and rise: their first 40 ms are quiet by definition
+    let decays = shape < 4 || shape == 9;
+    if decays && ref_swing < 0.002 {
+        ctx.violation("szx:ay:envelope-silent-on-fresh-machine", &format!("SZX with a one-shot decaying envelope (shape {}, EP {}) is silent right after the load on a fresh machine (swing {:.4})", shape, ep, ref_swing), jobj! {"case"=>id,"is128"=>is128,"regs"=>hex(&regs)});
+        return;
+    }
+    // prior A: the same file played to the end of its envelope; prior B: another shape held at the top
+    for prior in ["same-file-played-out", "other-shape-held"] {
+        let mut m = mk();
+        if prior == "same-file-played-out" {
+            if !matches!(load_szx(&mut m, &file), Ok(Ok(()))) {
+                return;
+            }
+        } else {
+            let mut b = a.clone();
+            let mut r2 = regs;
+            r2[13] = 0x0D;
+            b.ay = Some(AyState { flags: if is128 { 0 } else { 2 }, cur: 0, regs: r2 });
+            let f2 = write_szx(&b, &SzxOpts::plain(), &mut rng);
+            if !matches!(load_szx(&mut m, &f2), Ok(Ok(()))) {
+                return;
+            }
+        }
+        m.run_frames(45);
+        m.drain_audio();
+        if !matches!(load_szx(&mut m, &file), Ok(Ok(()))) {
+            return;
+        }
+        let swing = measure(&mut m);
+        st.checks += 1;
+        st.audio_samples += 1764;
+        let ok = (swing - ref_swing).abs() <= 0.3 * ref_swing.max(0.004);
+        if !ok {
+            ctx.violation(
+                &format!("szx:ay:envelope-not-restarted@prior-{}", prior),
+                &format!("the same SZX (envelope shape {}, EP {}) sounds different right after the load depending on what the chip played before: tone energy {:.4} on a fresh machine, {:.4} after '{}'", shape, ep, ref_swing, swing, prior),
+                jobj! {"case"=>id,"is128"=>is128,"regs"=>hex(&regs),"fresh_swing"=>ref_swing as f64,"swing"=>swing as f64,"prior"=>prior},
+            );
+            return;
+        }
+    }
+}
+
 pub fn run(ctx: &Ctx) -> Evidence {
     let n = ctx.scale(6000, 120_000);
     let replay_case = ctx.replay.as_ref().and_then(|r| r.get("details")).and_then(|d| d.get("case")).and_then(|c| c.as_i64());
@@ -912,6 +1013,9 @@ pub fn run(ctx: &Ctx) -> Evidence {
                 if rc as u64 != id {
                     continue;
                 }
+            }
+            if id % 97 == 13 {
+                run_ay_retrigger(ctx, id, &mut st);
             }
             match id % 20 {
                 0 => run_scr(ctx, id, &mut st),
